@@ -109,6 +109,18 @@ func runC07(c *Ctx) {
 		inputs = append(inputs, g.Generate().Bytes())
 		notes = append(notes, "generated stream")
 	}
+	// every file-type value: whatever Decode accepts, Encode must be able to write
+	for ft := 0; ft < 256; ft++ {
+		s := newStream(12, false)
+		arch := byte(ft % 2)
+		s.FileId(0, arch, byte(ft))
+		s.Def(1, arch, 49, []FieldDef{{0, 2, 0x84}, {1, 1, 2}}, nil) // file_creator
+		s.Data(1, append(wire(u16le(uint16(ft)), arch), 3))
+		s.Def(2, arch, 20, []FieldDef{{253, 4, 0x86}, {3, 1, 2}}, nil)
+		s.Data(2, append(wire(u32le(0x39300000), arch), 90))
+		inputs = append(inputs, s.Bytes())
+		notes = append(notes, fmt.Sprintf("file type %d", ft))
+	}
 	// strings: unterminated, exactly filling, multi-byte characters at the cut
 	for i := 0; i < c.pick(20, 200); i++ {
 		s := newStream(12, false)
